@@ -69,6 +69,13 @@ Theorem C02_sort_spec : forall sf l,
 Proof. exact (fun sf l => conj (sort_perm sf l) (conj (sort_sorted sf l) (sort_id_on_sorted sf l))). Qed.
 Print Assumptions C02_sort_spec.
 
+(* ... and stable: events that compare equal (same latitude, same start/end flag) keep their
+   input order, as Python's list.sort guarantees *)
+Theorem C02_sort_stable : forall sf k l,
+  filter (ev_equiv sf k) (sort_events sf l) = filter (ev_equiv sf k) l.
+Proof. exact sort_stable. Qed.
+Print Assumptions C02_sort_stable.
+
 (* ---- shapes: equal to edge-pair truth ------------------------------------------------------- *)
 
 (* polygon / box / linestring against polygon / box / linestring:
@@ -79,6 +86,14 @@ Theorem C02_intersects_edge_truth : forall w a b,
     Ok (edge_part a b || contains_coordinate w a (first_pt b) || contains_coordinate w b (first_pt a)).
 Proof. exact intersects_edge_truth. Qed.
 Print Assumptions C02_intersects_edge_truth.
+
+(* the edge part, in planar terms *)
+Theorem C02_edge_part_meaning : forall a b,
+  edge_part a b = true <->
+  exists ea eb, In ea (all_edges a) /\ In eb (all_edges b) /\ nonparallel ea eb /\
+    exists xn yn dv, 0 < dv /\ on_seg_q ea xn yn dv /\ on_seg_q eb xn yn dv.
+Proof. exact edge_part_meaning. Qed.
+Print Assumptions C02_edge_part_meaning.
 
 (* polygon / box receiver: no edge pair hits and the first vertex of B is in A *)
 Theorem C02_contains_edge_truth : forall w a b,
@@ -170,6 +185,15 @@ Theorem C02_edge_part_order_free : forall c c' hs d b,
     edges_cross (edge_rings b) (edge_rings (mk_poly c hs d)).
 Proof. exact edge_part_order_free. Qed.
 Print Assumptions C02_edge_part_order_free.
+
+(* ... and NOT for the first-vertex fallback: reversing a path changes the answer for two
+   collinear paths that meet end to end (new finding, reported) *)
+Theorem C02_line_reversal_refuted :
+  exists vs us,
+    intersects_shape (-180) (Ln vs None) (Ln us None) = Ok true /\
+    intersects_shape (-180) (Ln vs None) (Ln (rev us) None) = Ok false.
+Proof. exact line_reversal_refuted. Qed.
+Print Assumptions C02_line_reversal_refuted.
 
 (* ---- known findings D5: the planar-set reading is false of the code ----------------------------- *)
 Theorem C02_intersects_boundary_point_refuted :
